@@ -150,6 +150,15 @@ pub fn run_norm(args: &Args) -> (u64, u64) {
             }
         }
         set_noisy(true);
+        // lengths around every power of 256 (and 2^15, 2^16 +- a few): always too long, whatever a narrower counter makes of it
+        for n in [17usize, 255, 256, 257, 258, 271, 272, 273, 511, 512, 513, 528, 1025, 4097] {
+            edge.push("a".repeat(n));
+            if n < 70000 {
+                let mut t = "Ab1".repeat(n / 3 + 1);
+                t.truncate(n);
+                edge.push(t);
+            }
+        }
         for a in &edge {
             norm_all(&mut tr, a);
         }
@@ -304,7 +313,8 @@ pub fn run_pin(args: &Args) -> (u64, u64) {
         if k % 60 == 59 {
             tr.reset("pin");
         }
-        let (ss, cs) = salts();
+        let (ss, mut cs) = salts();
+        if k % 7 == 3 { cs = ss; }          // both salts equal (legal)
         let seed = if k % 3 == 0 { seeds[k % seeds.len()] } else { rng2.gen() };
         let h = pin_event(&mut tr, *pin, seed, &ss, &cs);
         match h {
@@ -593,6 +603,23 @@ pub fn run_integrity(args: &Args) -> (u64, u64) {
         integ_event(&mut tr, "windows", &files, &s2, &k2);
         integ_event(&mut tr, "mac", &files, &s2, &k2);
         integ_event(&mut tr, "generic", &[data.clone()], &s2, &k2);
+    }
+    // after a check over more than 64 MiB (its own result is not recorded - the data cannot be shipped to TLC) the next,
+    // ordinary checks on this thread are what they always are
+    {
+        tr.reset("integrity-after-huge");
+        let huge = vec![0x5Au8; 70 << 20];
+        let empty: Vec<u8> = vec![];
+        let _ = guard(|| wow_srp::integrity::login_integrity_check_windows(&huge, &empty, &empty, &empty, &empty, &salt, &key));
+        let small: Vec<Vec<u8>> = (0..5).map(|i| vec![i as u8 + 1; 30 + i]).collect();
+        integ_event(&mut tr, "windows", &small, &salt, &key);
+        integ_event(&mut tr, "mac", &small, &salt, &key);
+        let _ = guard(|| wow_srp::integrity::login_integrity_check_mac(&empty, &huge, &empty, &empty, &empty, &salt, &key));
+        integ_event(&mut tr, "mac", &small, &salt, &key);
+        integ_event(&mut tr, "windows", &small, &salt, &key);
+        let _ = guard(|| wow_srp::integrity::login_integrity_check_generic(&huge, &salt, &key));
+        integ_event(&mut tr, "generic", &[small.concat()], &salt, &key);
+        integ_event(&mut tr, "windows", &small, &salt, &key);
     }
     // a file argument that ENDS exactly on a multiple of a block size (4 KiB steps up to 64 KiB, 128 KiB in thorough) after
     // starting off it, another that starts exactly there, an empty one on the boundary: every byte is hashed once
@@ -1071,6 +1098,31 @@ pub fn run_rng(args: &Args) -> (u64, u64) {
         let _ = (r, u, s);
         draws_event(&mut tr, "CloneRefresh", "SrpServer::clone + verify_reconnection_attempt", each, vec![], vec![], vec![], json!({}));
     }
+    // attempts whose client data ECHO the challenge on offer, or are all zero, refresh the challenge like any other attempt
+    {
+        let sessions = if thorough { 1024 } else { 256 };
+        let (o, _r, _u, _s) = batch(sessions, threads, |_| {
+            let v = SrpVerifier::from_username_and_password(NS::new("A").unwrap(), NS::new("B").unwrap());
+            let p = v.into_proof();
+            let bpub = wow_srp::PublicKey::from_le_bytes(*p.server_public_key()).unwrap();
+            let c = wow_srp::client::SrpClientChallenge::new(NS::new("A").unwrap(), NS::new("B").unwrap(), 7, wow_srp::LARGE_SAFE_PRIME_LITTLE_ENDIAN, bpub, *p.salt());
+            let apub = wow_srp::PublicKey::from_le_bytes(*c.client_public_key()).unwrap();
+            let (mut srv, _m2) = p.into_server(apub, *c.client_proof()).unwrap();
+            let mut out = srv.reconnect_challenge_data().to_vec();
+            let ch = *srv.reconnect_challenge_data();
+            let _ = srv.verify_reconnection_attempt(ch, [0u8; 20]);
+            out.extend_from_slice(srv.reconnect_challenge_data());
+            let ch = *srv.reconnect_challenge_data();
+            let _ = srv.verify_reconnection_attempt(ch, [0xA5u8; 20]);
+            out.extend_from_slice(srv.reconnect_challenge_data());
+            let _ = srv.verify_reconnection_attempt([0u8; 16], [0u8; 20]);
+            out.extend_from_slice(srv.reconnect_challenge_data());
+            out
+        });
+        let mut each: Vec<Vec<u8>> = vec![];
+        for v in &o { for ch in v.chunks(16) { each.push(ch.to_vec()); } }
+        draws_event(&mut tr, "CloneRefresh", "attempts echoing the challenge", each, vec![], vec![], vec![], json!({}));
+    }
     for (exp, site) in [("vanilla", "VanillaSeed"), ("tbc", "TbcSeed"), ("wrath", "WrathSeed")] {
         for via in ["new", "default"] {
             let (o, r, u, s) = batch(n, threads, move |_| {
@@ -1141,5 +1193,57 @@ pub fn run_rng(args: &Args) -> (u64, u64) {
         let (o, r, u, s) = batch(if thorough { 1024 } else { 256 }, threads, move |_| MatrixCard::new(d, h, w).data().to_vec());
         draws_event(&mut tr, "MatrixDigits", &format!("MatrixCard::new({},{},{})", d, h, w), o, r, u, s, json!({}));
     }
+    tr.finish()
+}
+
+
+/// Corpus search (run once, by hand; its output is committed under corpus/): salts for which x = SHA1(salt | SHA1("U:P")) has an
+/// all-zero aligned 32-bit word.  Input selection only - the checks recompute x from the recorded salt with the specification.
+pub fn run_xhunt(args: &Args) -> (u64, u64) {
+    use std::sync::atomic::{AtomicBool, AtomicU64, Ordering};
+    use std::sync::{Arc, Mutex};
+    let creds: [(&str, &str); 2] = [("A", "A"), ("GANDALF77", "MELLON!2")];
+    let found: Arc<Mutex<Vec<(usize, [u8; 32], usize)>>> = Arc::new(Mutex::new(vec![]));
+    let stop = Arc::new(AtomicBool::new(false));
+    let tried = Arc::new(AtomicU64::new(0));
+    let start = std::time::Instant::now();
+    let limit = args.n.unwrap_or(240);
+    let mut hs = vec![];
+    for t in 0..16u64 {
+        let (found, stop, tried) = (found.clone(), stop.clone(), tried.clone());
+        let seed = args.seed;
+        hs.push(std::thread::spawn(move || {
+            let ci = (t % 2) as usize;
+            let up = format!("{}:{}", creds[ci].0, creds[ci].1);
+            let inner: [u8; 20] = Sha1::new().chain_update(up.as_bytes()).finalize().into();
+            let mut salt = [0u8; 32];
+            salt[8..16].copy_from_slice(&seed.to_le_bytes());
+            salt[16] = t as u8;
+            salt[31] = 0x5A;
+            let mut ctr: u64 = 0;
+            while !stop.load(Ordering::Relaxed) {
+                for _ in 0..1_000_000 {
+                    ctr += 1;
+                    salt[..8].copy_from_slice(&ctr.to_le_bytes());
+                    let x: [u8; 20] = Sha1::new().chain_update(salt).chain_update(inner).finalize().into();
+                    for w in 0..4usize {
+                        if x[4 * w] == 0 && x[4 * w + 1] == 0 && x[4 * w + 2] == 0 && x[4 * w + 3] == 0 && x[4 * w + 4..].iter().any(|b| *b != 0) {
+                            found.lock().unwrap().push((ci, salt, w));
+                        }
+                    }
+                }
+                tried.fetch_add(1_000_000, Ordering::Relaxed);
+                let f = found.lock().unwrap();
+                let have: std::collections::HashSet<usize> = f.iter().map(|e| e.2).collect();
+                if have.len() == 4 || start.elapsed().as_secs() > limit { stop.store(true, Ordering::Relaxed); }
+            }
+        }));
+    }
+    for h in hs { let _ = h.join(); }
+    let mut tr = Tr::create(&args.out);
+    for (ci, salt, w) in found.lock().unwrap().iter() {
+        tr.ev(json!({"user": creds[*ci].0, "pass": creds[*ci].1, "salt": b(salt), "zeroWord": w}));
+    }
+    eprintln!("xhunt: tried {} salts in {} s", tried.load(Ordering::Relaxed), start.elapsed().as_secs());
     tr.finish()
 }
